@@ -36,6 +36,9 @@ var restFixed = []string{
 	`std | 5 ;; \e ;; (undefinedfn 1) ;; \e ;; 6`,
 	`std | (def a 0) @@ (for L1: [(def i 0) (< i 4) (set i (+ i 1))] (for [(def j 0) (< j 3) (set j (+ j 1))] (let [b 1] (cond (== j 1) (continue L1:) (== i 3) (break L1:) nil)) (set a (+ a 1)))) @@ a`,
 	`std | (defn va [a & l] (+ a (len l))) @@ (va 1) @@ (va 1 2 3)`,
+	`std | (def n 0) @@ (for [(def i 0) (< i 3) (set i (+ i 1))] (let [x 1] (cond (begin (set n (+ n 1)) (continue)) 1 2))) @@ n`,
+	`std | (for [(def i 0) (< i 3) (set i (+ i 1))] (let [x 1] (cond (break) 1 2)))`,
+	`std | (for [(def i 0) (< i 3) (set i (+ i 1))] (let [x 1] (newScope [1 2 (cond (== i 1) (continue) 3)] ^(1 ~(cond (== i 2) (break) 2)))))`,
 	`std | (defn cnt [n acc] (cond (== n 0) acc (cnt (- n 1) (+ acc 1)))) @@ (cnt 50 0)`,
 	`std | (defn cntv [n & r] (cond (== n 0) (len r) (cntv (- n 1) 1 2 3))) @@ (cntv 5)`,
 	`std | (defn lz [#x p] (cond p (+ (force #x) (force #x)) 0)) @@ (lz (+ 2 3) true) @@ (lz (+ 2 3) false)`,
@@ -523,7 +526,21 @@ func (r *rg) st(d int) string {
 				} else if r.labels[len(r.labels)-1] != "" && r.rnd(2) == 0 {
 					continue
 				}
-				switch r.rnd(4) {
+				switch r.rnd(10) {
+				case 4:
+					// in the test of a cond arm, inside a let
+					return fmt.Sprintf("(let [%s 1] (cond (and %s %s) 1 2))", r.fresh("p"), r.be(d-1), tgt)
+				case 5:
+					return fmt.Sprintf("(cond (begin 1 (cond %s %s nil) false) 1 2)", r.be(d-1), tgt)
+				case 6:
+					// with operands of an array literal and a template already on the stack
+					return fmt.Sprintf("(newScope [1 2 (cond %s %s 3)])", r.be(d-1), tgt)
+				case 7:
+					return fmt.Sprintf("(let [%s 1] ^(1 ~(cond %s %s 2) ~@(list 3 4)))", r.fresh("p"), r.be(d-1), tgt)
+				case 8:
+					return fmt.Sprintf("(letseq [%s 1 %s (cond %s %s 2)] 5)", r.fresh("p"), r.fresh("p"), r.be(d-1), tgt)
+				case 9:
+					return fmt.Sprintf("(or false (let [%s 1] (or %s (and %s %s))) 1)", r.fresh("p"), r.be(d-1), r.be(d-1), tgt)
 				case 0:
 					return fmt.Sprintf("(cond %s %s nil)", r.be(d-1), tgt)
 				case 1:
@@ -656,7 +673,10 @@ func (r *rg) decl() string {
 			r.vfns = addUniq(r.vfns, f)
 			return s
 		case 7:
-			m := r.pick([]string{"m1", "m2"})
+			// a fresh name every time: macros are registered when a text is COMPILED, so
+			// re-defining one inside a text makes "as a whole" and "form by form" differ for
+			// reasons that have nothing to do with what an evaluation leaves behind
+			m := r.fresh("mac")
 			n := 1 + r.rnd(2)
 			var s string
 			if n == 1 {
@@ -672,7 +692,7 @@ func (r *rg) decl() string {
 			r.macs[m] = n
 			return s
 		case 8:
-			m := r.pick([]string{"when1", "unless1"})
+			m := r.fresh("when")
 			s := fmt.Sprintf("(defmac %s [c & body] ^(cond ~c (begin ~@body) nil))", m)
 			r.smacs = addUniq(r.smacs, m)
 			return s
